@@ -9,16 +9,27 @@ pub fn dispatch(op: &str, req: &Value) -> Result<Value, String> {
             let dir = std::path::PathBuf::from(std::env::var("VERIF_SCRATCH").unwrap_or("/var/tmp/verif-scratch".to_string()))
                 .join(format!("bpe-{}", std::process::id()));
             std::fs::create_dir_all(&dir).map_err(|e| e.to_string())?;
-            let corpus = dir.join("corpus.txt");
-            let mut content = String::new();
-            for l in req["lines"].as_array().ok_or("lines")? {
-                content.push_str(l.as_str().unwrap());
-                content.push('\n');
+            let lines: Vec<String> = req["lines"].as_array().ok_or("lines")?.iter().map(|l| l.as_str().unwrap_or("").to_string()).collect();
+            // optional: distribution of the lines over several files (lists of line indices) and max_lines_per_file
+            let groups: Vec<Vec<usize>> = match req.get("files").and_then(|f| f.as_array()) {
+                Some(fs) => fs.iter().map(|g| g.as_array().map(|a| a.iter().filter_map(|x| x.as_u64().map(|x| x as usize)).collect()).unwrap_or_default()).collect(),
+                None => vec![(0..lines.len()).collect()],
+            };
+            let mut paths = vec![];
+            for (fi, g) in groups.iter().enumerate() {
+                let p = dir.join(format!("corpus{fi}.txt"));
+                let mut content = String::new();
+                for li in g {
+                    content.push_str(lines.get(*li).map(|s| s.as_str()).unwrap_or(""));
+                    content.push('\n');
+                }
+                std::fs::write(&p, content).map_err(|e| e.to_string())?;
+                paths.push(p);
             }
-            std::fs::write(&corpus, content).map_err(|e| e.to_string())?;
+            let max_lines = req.get("max_lines").and_then(|v| v.as_u64()).map(|v| v as usize);
             let out = dir.join("merges.bin");
-            let r = train_bpe(&[corpus], req["vocab"].as_u64().ok_or("vocab")? as usize, req["nst"].as_u64().ok_or("nst")? as usize,
-                &out, None, None, req["threads"].as_u64().unwrap_or(1) as u8, false);
+            let r = train_bpe(&paths, req["vocab"].as_u64().ok_or("vocab")? as usize, req["nst"].as_u64().ok_or("nst")? as usize,
+                &out, max_lines, None, req["threads"].as_u64().unwrap_or(1) as u8, false);
             if let Err(e) = r {
                 let _ = std::fs::remove_dir_all(&dir);
                 return Err(e.to_string());
